@@ -428,7 +428,8 @@ type n09L2FParser struct {
 	wantLen  bool
 	lastLive *n09Id // on this connection
 	fullConn bool   // a full transfer was accepted on this connection
-	recs     int    // complete records (file or live) forwarded on this connection
+	recs     int    // complete records (file or live, payload included) forwarded on this connection
+	recPending bool
 	closed   bool
 }
 
@@ -436,6 +437,14 @@ type n09L2FParser struct {
 // In this window the follower's position already names the transfer's bound (ReplicationClient.InitSync
 // sets currentAofId before recvFiles), so a reconnect is answered as a resume from the bound.
 func (l *n09L2FParser) inWindow() bool { return l.fullConn && l.recs == 0 && !l.closed }
+
+func (l *n09L2FParser) recordDone() {
+	if l.recs == 0 && l.fullConn {
+		l.rc.p.windowOpen--
+	}
+	l.recs++
+	l.recPending = false
+}
 
 func (l *n09L2FParser) midFrame() bool { return len(l.hdr) > 0 || l.skip > 0 || l.wantLen }
 
@@ -450,6 +459,9 @@ func (l *n09L2FParser) feed(b []byte) {
 			}
 			l.skip -= n
 			b = b[n:]
+			if l.skip == 0 && l.recPending {
+				l.recordDone()
+			}
 			continue
 		}
 		if l.wantLen {
@@ -463,6 +475,9 @@ func (l *n09L2FParser) feed(b []byte) {
 				l.skip = int(uint32(l.lenBuf[0]) | uint32(l.lenBuf[1])<<8 | uint32(l.lenBuf[2])<<16 | uint32(l.lenBuf[3])<<24)
 				l.lenBuf = l.lenBuf[:0]
 				l.wantLen = false
+				if l.skip == 0 && l.recPending {
+					l.recordDone()
+				}
 			}
 			continue
 		}
@@ -527,10 +542,11 @@ func (l *n09L2FParser) feed(b []byte) {
 		if aofFlag&AOF_FLAG_CONTAINS_DATA != 0 {
 			l.wantLen = true
 		}
-		if l.recs == 0 && l.fullConn {
-			p.windowOpen--
+		if l.wantLen {
+			l.recPending = true
+		} else {
+			l.recordDone()
 		}
-		l.recs++
 		if l.phase != n09PhaseLive {
 			p.filesRecords++
 			continue
@@ -656,6 +672,8 @@ type n09Info struct {
 	abandoned                          int64
 	maxHolds                           int
 	excludedCreateByUpdate             int
+	skipAhead, deferredCuts            int
+	knownDupFlush                      int
 }
 
 type n09Out struct {
@@ -671,6 +689,7 @@ type n09Slot struct {
 	node   *n09Node
 	joined int
 	stall  bool
+	tainted bool // its directory showed the double-flush signature
 }
 
 type n09Env struct {
@@ -736,6 +755,7 @@ func n09NewEnv(c *n09Case) (*n09Env, error) {
 			e.close()
 			return nil, perr
 		}
+		p.protectWindow = vIsKnown(n09KeySkipAhead)
 		e.slots = append(e.slots, &n09Slot{proxy: p, dir: vScratchDir(fmt.Sprintf("n09-f%d", i))})
 	}
 	e.stopNudge, e.nudgeDone = make(chan struct{}), make(chan struct{})
@@ -801,6 +821,7 @@ func (e *n09Env) close() {
 	e.info.abandoned = atomic.LoadInt64(&vAbandoned) - before
 }
 
+const n09KeySkipAhead = "C09:aborted-full-transfer-resumes-at-bound-skipping-history"
 const n09KeyCompaction = "C09:full-transfer-after-compaction-loses-hold-created-by-update-request"
 
 // holds reports whether the leader currently has a hold of (db, key, id).
@@ -857,6 +878,23 @@ func (e *n09Env) send(op n09Op) {
 // rotate is Admin.commandHandleRewriteAofCommand; before the switch the harness copies the file
 // that is being closed (the background compaction deletes it).
 func (e *n09Env) rotate() {
+	if vIsKnown(n09KeySkipAhead) {
+		// known finding: a transfer that the leader aborts (its compaction deletes a file sendFiles is about to
+		// read) before the first record leaves the follower at the bound. Excluded as far as the harness can:
+		// no rotation while a follower is inside that window.
+		for i := 0; i < 1000; i++ {
+			open := 0
+			for _, s := range e.slots {
+				s.proxy.mu.Lock()
+				open += s.proxy.windowOpen
+				s.proxy.mu.Unlock()
+			}
+			if open == 0 {
+				break
+			}
+			time.Sleep(2 * time.Millisecond)
+		}
+	}
 	aof := e.leader.inst.slock.aof
 	n09Drain(aof)
 	aof.glock.Lock()
@@ -1230,15 +1268,139 @@ func (e *n09Env) truthRecord(id n09Id) *n09Rec {
 	return nil
 }
 
+const n09KeyDupFlush = "C09:follower-log-duplicated-by-unlocked-flush-during-file-transfer"
+
+// n09ReadRaw splits an append file into its 64-byte records and its .dat into len32-prefixed frames.
+func n09ReadRaw(path string) (recs [][64]byte, frames [][]byte, err error) {
+	b, err := os.ReadFile(path)
+	if err != nil {
+		return nil, nil, err
+	}
+	if len(b) < 12 || string(b[:8]) != "SLOCKAOF" {
+		return nil, nil, fmt.Errorf("no AOF header")
+	}
+	b = b[12+(int(b[10])|int(b[11])<<8):]
+	for len(b) >= 64 {
+		var r [64]byte
+		copy(r[:], b[:64])
+		recs = append(recs, r)
+		b = b[64:]
+	}
+	if len(b) != 0 {
+		err = fmt.Errorf("%d trailing bytes after the last record", len(b))
+	}
+	dat, _ := os.ReadFile(path + ".dat")
+	for len(dat) >= 4 {
+		n := int(uint32(dat[0]) | uint32(dat[1])<<8 | uint32(dat[2])<<16 | uint32(dat[3])<<24)
+		if len(dat) < 4+n {
+			break
+		}
+		frames = append(frames, append([]byte{}, dat[:4+n]...))
+		dat = dat[4+n:]
+	}
+	if len(dat) != 0 && err == nil {
+		err = fmt.Errorf("%d trailing bytes in .dat", len(dat))
+	}
+	return
+}
+
+func n09RecId(r *[64]byte) n09Id {
+	return n09Id{uint32(r[7]) | uint32(r[8])<<8 | uint32(r[9])<<16 | uint32(r[10])<<24, uint32(r[3]) | uint32(r[4])<<8 | uint32(r[5])<<16 | uint32(r[6])<<24}
+}
+
+// checkOneFile compares a follower file with the leader's log. tolerant = accept byte-identical
+// repetitions of records already seen in this file and of payload frames already consumed (the
+// signature of two unsynchronised AofFile.Flush calls writing the same buffer twice).
+func (e *n09Env) checkOneFile(f int, dir, name string, exact bool, start *n09Id, target n09Id, tolerant bool) (msg string, dups int) {
+	recs, frames, rerr := n09ReadRaw(filepath.Join(dir, name))
+	if rerr != nil && recs == nil {
+		return fmt.Sprintf("follower %d %s unreadable: %v", f, name, rerr), 0
+	}
+	if rerr != nil {
+		return fmt.Sprintf("follower %d %s: %v", f, name, rerr), 0
+	}
+	seen := map[n09Id][64]byte{}
+	usedFrames := map[string]bool{}
+	var prev *n09Id
+	var live []n09Id
+	fi := 0
+	for i := range recs {
+		r := &recs[i]
+		id := n09RecId(r)
+		if prev != nil && !prev.less(id) {
+			if old, ok := seen[id]; tolerant && ok && old == *r {
+				dups++
+				continue
+			}
+			return fmt.Sprintf("follower %d %s: record %v follows %v (duplicate or reordered)", f, name, id, *prev), dups
+		}
+		prev = &id
+		seen[id] = *r
+		g := e.truthRecord(id)
+		if g == nil {
+			return fmt.Sprintf("follower %d %s: record %v does not exist in the leader's log", f, name, id), dups
+		}
+		x, y := g.Buf, *r
+		x[55] &^= AOF_FLAG_REWRITED
+		y[55] &^= AOF_FLAG_REWRITED
+		if x != y {
+			return fmt.Sprintf("follower %d %s: record %v differs from the leader's\n      leader   %x\n      follower %x", f, name, id, g.Buf, *r), dups
+		}
+		if (uint16(r[55])|uint16(r[56])<<8)&AOF_FLAG_CONTAINS_DATA != 0 {
+			for {
+				if fi >= len(frames) {
+					return fmt.Sprintf("follower %d %s: payload of record %v missing in .dat (expected %x)", f, name, id, g.Data), dups
+				}
+				fr := frames[fi]
+				fi++
+				if bytes.Equal(fr, g.Data) {
+					usedFrames[string(fr)] = true
+					break
+				}
+				if tolerant && usedFrames[string(fr)] {
+					dups++
+					continue
+				}
+				return fmt.Sprintf("follower %d %s: payload of record %v is %x, the leader logged %x", f, name, id, fr, g.Data), dups
+			}
+		}
+		if exact && start != nil && !id.less(*start) {
+			live = append(live, id)
+		}
+	}
+	for ; fi < len(frames); fi++ {
+		if tolerant && usedFrames[string(frames[fi])] {
+			dups++
+			continue
+		}
+		return fmt.Sprintf("follower %d %s: .dat holds a payload %x that belongs to no record", f, name, frames[fi]), dups
+	}
+	if !exact || start == nil {
+		return "", dups
+	}
+	var idx uint32
+	_, _ = fmt.Sscanf(name, "append.aof.%d", &idx)
+	var want []n09Id
+	for _, g := range e.truth[idx] {
+		if !g.Id.less(*start) && !target.less(g.Id) {
+			want = append(want, g.Id)
+		}
+	}
+	if fmt.Sprint(live) != fmt.Sprint(want) && !(len(live) == 0 && len(want) == 0) {
+		return fmt.Sprintf("follower %d %s: records from its start id %v on are %v, the leader logged %v (gap, duplicate or lost tail)", f, name, *start, live, want), dups
+	}
+	return "", dups
+}
+
 // checkFiles: follower files versus the leader's log, record by record.
-func (e *n09Env) checkFiles(f int, target n09Id) string {
+func (e *n09Env) checkFiles(f int, target n09Id) (key, msg string) {
 	s := e.slots[f]
 	aof := s.node.inst.slock.aof
 	_ = aof.WaitRewriteAofFiles()
 	aof.FlushWithLocked()
 	files, rewrite, err := aof.FindAofFiles()
 	if err != nil {
-		return "" // directory listing failed (file index hole while compacting): not judged
+		return "", "" // directory listing failed (file index hole while compacting): not judged
 	}
 	s.proxy.mu.Lock()
 	var start *n09Id
@@ -1247,62 +1409,25 @@ func (e *n09Env) checkFiles(f int, target n09Id) string {
 		start = &v
 	}
 	s.proxy.mu.Unlock()
-	check := func(name string, exact bool) string {
-		recs, perr := n09ParseAofFile(filepath.Join(aof.dataDir, name))
-		if perr != nil {
-			return fmt.Sprintf("follower %d %s unreadable: %v", f, name, perr)
-		}
-		var prev *n09Id
-		var live []n09Rec
-		for i := range recs {
-			r := &recs[i]
-			if prev != nil && !prev.less(r.Id) {
-				return fmt.Sprintf("follower %d %s: record %v follows %v (duplicate or reordered)", f, name, r.Id, *prev)
-			}
-			id := r.Id
-			prev = &id
-			g := e.truthRecord(r.Id)
-			if g == nil {
-				return fmt.Sprintf("follower %d %s: record %v does not exist in the leader's log", f, name, r.Id)
-			}
-			if !n09SameRecord(g, r) {
-				return fmt.Sprintf("follower %d %s: record %v differs from the leader's\n      leader   %x data %x\n      follower %x data %x", f, name, r.Id, g.Buf, g.Data, r.Buf, r.Data)
-			}
-			if exact && start != nil && !r.Id.less(*start) {
-				live = append(live, *r)
-			}
-		}
-		if !exact || start == nil {
-			return ""
-		}
-		var idx uint32
-		_, _ = fmt.Sscanf(name, "append.aof.%d", &idx)
-		var want []n09Id
-		for _, g := range e.truth[idx] {
-			if !g.Id.less(*start) && !target.less(g.Id) {
-				want = append(want, g.Id)
-			}
-		}
-		var got []n09Id
-		for _, r := range live {
-			got = append(got, r.Id)
-		}
-		if fmt.Sprint(got) != fmt.Sprint(want) {
-			return fmt.Sprintf("follower %d %s: records from its start id %v on are %v, the leader logged %v (gap, duplicate or lost tail)", f, name, *start, got, want)
-		}
-		return ""
-	}
+	names := []string{}
 	if rewrite != "" {
-		if msg := check(rewrite, false); msg != "" {
-			return msg
-		}
+		names = append(names, rewrite)
 	}
-	for _, name := range files {
-		if msg := check(name, true); msg != "" {
-			return msg
+	names = append(names, files...)
+	for _, name := range names {
+		exact := name != rewrite
+		m, _ := e.checkOneFile(f, aof.dataDir, name, exact, start, target, false)
+		if m == "" {
+			continue
 		}
+		// strict comparison failed: is it exactly the double-flush signature?
+		if m2, dups := e.checkOneFile(f, aof.dataDir, name, exact, start, target, true); m2 == "" && dups > 0 {
+			s.tainted = true
+			return n09KeyDupFlush, fmt.Sprintf("%s\n    (apart from %d byte-identical repetitions of earlier records/payloads the file matches the leader's log)", m, dups)
+		}
+		return "C09:follower-log-differs", m
 	}
-	return ""
+	return "", ""
 }
 
 func (e *n09Env) syncAndCheck(final bool) (key, violation, inconclusive string) {
@@ -1336,7 +1461,16 @@ func (e *n09Env) syncAndCheck(final bool) (key, violation, inconclusive string) 
 		s := e.slots[i]
 		fol := n09Canon(s.node.inst.slock, false)
 		if d := n09CompareState(lead, fol); d != "" {
-			return "C09:follower-state-diverges", fmt.Sprintf("follower %d caught up to the leader's last id %s but its state differs: %s\n    leader (persisted holds):\n%s    follower %d:\n%s", i, tid, d, n09DescribeState(lead), i, n09DescribeState(fol)) + e.dumpFiles(i), ""
+			key := "C09:follower-state-diverges"
+			if s.tainted && vIsKnown(n09KeyDupFlush) {
+				key = n09KeyDupFlush // the follower reloaded a directory that the double flush had corrupted
+			}
+			s.proxy.mu.Lock()
+			if s.proxy.skipAhead > 0 {
+				key = n09KeySkipAhead
+			}
+			s.proxy.mu.Unlock()
+			return key, fmt.Sprintf("follower %d caught up to the leader's last id %s but its state differs: %s\n    leader (persisted holds):\n%s    follower %d:\n%s", i, tid, d, n09DescribeState(lead), i, n09DescribeState(fol)) + e.dumpFiles(i), ""
 		}
 		s.proxy.mu.Lock()
 		wire := s.proxy.wireViolation
@@ -1350,8 +1484,12 @@ func (e *n09Env) syncAndCheck(final bool) (key, violation, inconclusive string) 
 				return "C09:live-stream-gap", fmt.Sprintf("follower %d: live stream jumped from %v to %v but append.aof.%d ended at offset %d", i, j[0], j[1], j[0].Idx, fo), ""
 			}
 		}
-		if msg := e.checkFiles(i, tid); msg != "" {
-			return "C09:follower-log-differs", msg + "\n" + e.dumpFiles(i), ""
+		if key, msg := e.checkFiles(i, tid); msg != "" {
+			if key == n09KeyDupFlush && vIsKnown(key) {
+				e.info.knownDupFlush++
+				continue
+			}
+			return key, msg + "\n" + e.dumpFiles(i), ""
 		}
 	}
 	return "", "", ""
@@ -1442,6 +1580,8 @@ func n09RunCluster(c *n09Case) (out n09Out) {
 		e.info.fullSyncs += s.proxy.fullSyncs
 		e.info.resumes += s.proxy.resumes
 		e.info.notFound += s.proxy.notFound
+		e.info.skipAhead += s.proxy.skipAhead
+		e.info.deferredCuts += s.proxy.deferredCuts
 		s.proxy.mu.Unlock()
 	}
 	bq := e.leader.inst.slock.replicationManager.bufferQueue
